@@ -1,5 +1,5 @@
-\* C02 thorough, collections: keys {"", a, b, é}; every tree of depth <= 1 over ALL leaves with <= 3 pairs
-\* (205 leaves), plus every tree of depth <= 2 over 12 chosen leaves; same node kinds as quick.
+\* C02 views: the Extent view (point, range), the SpanCtxt view (every subset of trace id / span id / parent), the
+\* ThreadLocalCtxt snapshot; alone, under dedup / erasure, joined (both sides) with leaves repeating their keys, one more level.
 SPECIFICATION Spec
 CONSTANTS
     KeyOrder <- MC_KeyOrder
@@ -8,7 +8,7 @@ CONSTANTS
     Seeds <- MC_Seeds
     Rights <- MC_Rights
     Extend <- MC_Extend
-    Which = "trees_thorough"
+    Which = "views"
     GrowLeaves <- MC_GrowLeaves
     MaxGrow = 0
     MacroGet = "bsearch_scan"
